@@ -36,6 +36,7 @@ ASSUMPTIONS = ['a stream socket never returns more than asked, never reorders or
                'oracle: independent model over the remaining stream (what happens when the whole stream arrives at once)',
                'sizes passed to recv_size/peek/recv are >= 1; retries after Timeout / EWOULDBLOCK repeat the same call']
 
+SELFTEST_MUTANT = 'recv-split-off-by-one'
 REQUIRED_PROBES = ['delimiter_straddles_recv', 'size_met_at_recv_edge', 'timeout_with_partial_data',
                    'ewouldblock_with_partial_data', 'message_too_long', 'partial_send', 'send_timeout_with_unsent',
                    'ns_roundtrip_frames', 'timeout', 'send_timeout']
